@@ -8,7 +8,7 @@ from db import DefUse, mir_callee, op_place
 
 
 class Terms:
-    def __init__(self, body, db=None, env=None, max_depth=14):
+    def __init__(self, body, db=None, env=None, max_depth=30):
         self.body = body
         self.db = db
         self.du = DefUse(body)
@@ -102,7 +102,11 @@ class Terms:
             inner = self.operand(rv["op"], depth)
             ck = rv.get("ck", "")
             if ck.startswith("IntToInt"):
-                return ("cast", inner, self.body["types"][rv["ty"]])
+                pl = op_place(rv["op"])
+                frm = None
+                if pl is not None and len(pl) == 1:
+                    frm = self.body["types"][self.body["locals"][pl[0]]]
+                return ("cast", inner, self.body["types"][rv["ty"]], frm)
             return inner
         if k == "BinaryOp":
             return ("bin", rv["op"], self.operand(rv["a"], depth), self.operand(rv["b"], depth))
@@ -127,6 +131,8 @@ def subterms(t):
     st = [t]
     while st:
         x = st.pop()
+        if isinstance(x, tuple) and not x:
+            continue
         yield x
         if isinstance(x, tuple):
             for y in x:
@@ -227,3 +233,18 @@ def bodies_under(db, fn):
     """fn and all closures (transitively) defined inside it."""
     pre = fn + "::{closure#"
     return [fn] + sorted(k for k in db.mir if k.startswith(pre))
+
+
+INT_BITS = {"u8": 8, "i8": 8, "u16": 16, "i16": 16, "u32": 32, "i32": 32, "u64": 64, "i64": 64, "usize": 64,
+            "isize": 64, "u128": 128, "i128": 128}
+
+
+def narrowing_casts(t):
+    """Sub-terms that are integer casts to a strictly narrower type."""
+    out = []
+    for x in subterms(t):
+        if isinstance(x, tuple) and x and x[0] == "cast" and len(x) >= 4:
+            to, frm = INT_BITS.get(x[2]), INT_BITS.get(x[3]) if x[3] else None
+            if to is not None and frm is not None and to < frm:
+                out.append(x)
+    return out
